@@ -858,4 +858,44 @@ theorem shape_order (k n : Nat) :
       have := hc e this
       simp [he] at this
 
+/-! ### `normalize_path` -/
+
+theorem trimSlashes_append_replicate (b : List Char) (k : Nat) (hb : b.getLast? ≠ some '/') :
+    trimSlashes (b ++ List.replicate k '/') = b := by
+  unfold trimSlashes
+  rw [List.reverse_append, List.reverse_replicate]
+  have h1 : ∀ (k : Nat) (r : List Char), (List.replicate k '/' ++ r).dropWhile (· == '/') = r.dropWhile (· == '/') := by
+    intro k r; induction k with
+    | zero => rfl
+    | succ k ih => simp [List.replicate_succ, ih]
+  rw [h1]
+  have h2 : b.reverse.dropWhile (· == '/') = b.reverse := by
+    cases hr : b.reverse with
+    | nil => rfl
+    | cons x xs =>
+      have : b.getLast? = some x := by rw [← List.head?_reverse, hr]; rfl
+      have hx : x ≠ '/' := fun e => hb (e ▸ this)
+      simp [List.dropWhile_cons, hx]
+  rw [h2, List.reverse_reverse]
+
+theorem trimSlashes_no_trailing (p : List Char) : (trimSlashes p).getLast? ≠ some '/' := by
+  unfold trimSlashes
+  rw [List.getLast?_reverse]
+  intro h
+  have := List.head?_dropWhile_not (· == '/') p.reverse
+  rw [h] at this
+  simp at this
+
+theorem trimSlashes_prefix (p : List Char) : trimSlashes p <+: p := by
+  unfold trimSlashes
+  have h := List.dropWhile_suffix (· == '/') (l := p.reverse)
+  rw [← List.reverse_reverse (List.dropWhile (· == '/') p.reverse)] at h
+  exact List.reverse_suffix.mp h
+
+theorem trimSlashes_head (p : List Char) (x : Char) (xs : List Char) (h : trimSlashes p = x :: xs) :
+    p.head? = some x := by
+  obtain ⟨t, ht⟩ := trimSlashes_prefix p
+  rw [h] at ht
+  rw [← ht]; rfl
+
 end Repe.Lifecycle
